@@ -156,37 +156,50 @@ func discharge(o *Obl, dir string, timeout int) {
 				}
 			}
 		}
-		// second attempt: only the assumptions that mention something the goal depends on
-		if !o.ExpectSat && !o.Isolated && o.Raw == "" && timeout > 8 {
+	}
+	if r.status != "sat" && r.status != "unsat" && timeout > quick {
+		ctx, cancel := context.WithCancel(context.Background())
+		// the race: the full VC on every solver and, next to it, the VC with only the assumptions that mention something
+		// the goal depends on (fewer hypotheses: its unsat carries over, any other answer of it is ignored)
+		n := len(solvers)
+		sfile := ""
+		if !o.ExpectSat && !o.Isolated && o.Raw == "" {
 			o.Sliced = true
 			stext, serr := o.smtText(false)
 			o.Sliced = false
 			if serr == nil && len(stext) < len(text) {
-				sfile := strings.TrimSuffix(file, ".smt2") + ".sliced.smt2"
-				if os.WriteFile(sfile, []byte(stext), 0o644) == nil {
-					sr := runSolver(context.Background(), solvers[0], sfile, 6)
-					if os.Getenv("GOVC_KEEP_PURE") == "" {
-						os.Remove(sfile)
-					}
-					if sr.status == "unsat" {
-						o.Seconds = time.Since(start).Seconds()
-						o.Solver = sr.solver + " (sliced assumptions)"
-						o.Result = "unsat"
-						return
-					}
+				sfile = strings.TrimSuffix(file, ".smt2") + ".sliced.smt2"
+				if os.WriteFile(sfile, []byte(stext), 0o644) != nil {
+					sfile = ""
 				}
 			}
 		}
-	}
-	if r.status != "sat" && r.status != "unsat" && timeout > quick {
-		ctx, cancel := context.WithCancel(context.Background())
-		ch := make(chan solveResult, len(solvers))
+		if sfile != "" {
+			n += 2
+		}
+		ch := make(chan solveResult, n)
 		for _, sd := range solvers {
 			go func(sd solverDef) { ch <- runSolver(ctx, sd, file, timeout) }(sd)
 		}
+		if sfile != "" {
+			for _, sd := range []solverDef{solvers[0], solvers[len(solvers)-1]} {
+				go func(sd solverDef) {
+					x := runSolver(ctx, sd, sfile, timeout)
+					if x.status == "unsat" {
+						x.solver += " (sliced assumptions)"
+					} else {
+						x.status, x.solver = "ignored", x.solver+" (sliced assumptions)"
+					}
+					ch <- x
+				}(sd)
+			}
+		}
 		var all []solveResult
-		for range solvers {
+		for k := 0; k < n; k++ {
 			x := <-ch
+			if x.status == "ignored" {
+				continue
+			}
 			all = append(all, x)
 			if x.status == "sat" || x.status == "unsat" {
 				r = x
@@ -194,6 +207,9 @@ func discharge(o *Obl, dir string, timeout int) {
 			}
 		}
 		cancel()
+		if sfile != "" && os.Getenv("GOVC_KEEP_PURE") == "" {
+			defer os.Remove(sfile)
+		}
 		if r.status != "sat" && r.status != "unsat" {
 			var b strings.Builder
 			best := "unknown"
